@@ -142,6 +142,16 @@ def listRepeat {α} (xs : List α) (n : Int) : List α := (List.replicate n.toNa
 
 /-- `np.ceil(x)` as an integer -/
 def ceil (x : Rat) : Int := Rat.ceil x
+/-- `np.floor(x)` as an integer -/
+def floor (x : Rat) : Int := Rat.floor x
+
+/-- one coordinate of `np.allclose`: `|a − b| ≤ atol + rtol·|b|` -/
+def close1 (a b rtol atol : Rat) : Bool := decide (abs (a - b) ≤ atol + rtol * abs b)
+/-- `np.allclose(a, b, rtol=…, atol=…)` on two lists of points; `none` = ValueError (shapes that cannot be broadcast) -/
+def allclose? (a b : List Vec3) (rtol atol : Rat) : Option Bool :=
+  if a.length = b.length then
+    some ((a.zip b).all (fun p => close1 p.1.x p.2.x rtol atol && close1 p.1.y p.2.y rtol atol && close1 p.1.z p.2.z rtol atol))
+  else none
 
 /-- `d[k] = v` on an insertion-ordered dict: an existing key keeps its position and takes the new value -/
 def dictInsert {κ β} [DecidableEq κ] : List (κ × β) → κ → β → List (κ × β)
@@ -693,6 +703,40 @@ def ucNeighborOffsets (uc_vectors : Mat3) : List Vec3 :=
    (⟨(((uc_vectors.a.x * (1 : Rat)) + (uc_vectors.b.x * (-1 : Rat))) + (uc_vectors.c.x * (1 : Rat))), (((uc_vectors.a.y * (1 : Rat)) + (uc_vectors.b.y * (-1 : Rat))) + (uc_vectors.c.y * (1 : Rat))), (((uc_vectors.a.z * (1 : Rat)) + (uc_vectors.b.z * (-1 : Rat))) + (uc_vectors.c.z * (1 : Rat)))⟩ : Vec3),
    (⟨(((uc_vectors.a.x * (1 : Rat)) + (uc_vectors.b.x * (0 : Rat))) + (uc_vectors.c.x * (1 : Rat))), (((uc_vectors.a.y * (1 : Rat)) + (uc_vectors.b.y * (0 : Rat))) + (uc_vectors.c.y * (1 : Rat))), (((uc_vectors.a.z * (1 : Rat)) + (uc_vectors.b.z * (0 : Rat))) + (uc_vectors.c.z * (1 : Rat)))⟩ : Vec3),
    (⟨(((uc_vectors.a.x * (1 : Rat)) + (uc_vectors.b.x * (1 : Rat))) + (uc_vectors.c.x * (1 : Rat))), (((uc_vectors.a.y * (1 : Rat)) + (uc_vectors.b.y * (1 : Rat))) + (uc_vectors.c.y * (1 : Rat))), (((uc_vectors.a.z * (1 : Rat)) + (uc_vectors.b.z * (1 : Rat))) + (uc_vectors.c.z * (1 : Rat)))⟩ : Vec3)]
+
+/-- translated from `find_pattern_in_structure` in mofun/mofun.py (FRAGMENT: the unit-cell atoms a partial match already uses; `none` = IndexError / ZeroDivisionError) -/
+def findUcAtomsInMatch (structure_len : Nat) (near_indices : List Nat) (match_ : List Nat) : Option (List Int) := do
+  let t3 ← (Py.listMapM? match_ (fun m => (do let t1 ← (near_indices[m]?); let t2 ← (Py.intMod? ((t1 : Nat) : Int) ((structure_len : Nat) : Int)); pure t2)))
+  pure t3
+
+/-- translated from `find_pattern_in_structure` in mofun/mofun.py (FRAGMENT: may this nearby atom extend the partial match: right element, and not an image of a unit-cell atom the match already uses) -/
+def findCandidateOk (structure_len : Nat) (near_types : List String) (pattern_elements : List String) (near_indices : List Nat) (i : Nat) (atom_idx : Nat) (uc_atoms_in_match : List Int) : Option Bool := do
+  let t1 ← (near_types[atom_idx]?)
+  let t2 ← (pattern_elements[i]?)
+  let t5 ← (if (t1 == t2) then (do let t3 ← (near_indices[atom_idx]?); let t4 ← (Py.intMod? ((t3 : Nat) : Int) ((structure_len : Nat) : Int)); pure (!(List.contains uc_atoms_in_match t4))) else (some false))
+  pure t5
+
+/-- the default `atol=0.05` of `find_pattern_in_structure` -/
+def findFinalCheck_default_atol : Rat := (Dec.toRat ⟨5, 2⟩)
+
+/-- translated from `find_pattern_in_structure` in mofun/mofun.py (FRAGMENT: the final re-check of a candidate, `np.allclose(…, rtol=…, atol=…)` with numpy's defaults for a missing keyword; `none` = ValueError) -/
+def findFinalCheck (atol : Rat) (chk_pattern_positions : List Vec3) (atom_positions : List Vec3) : Option Bool := do
+  let t1 ← (Py.allclose? atom_positions chk_pattern_positions (0 : Rat) atol)
+  pure t1
+
+/-- translated from `_get_positions_from_all_adjacent_unit_cells` in mofun/mofun.py (FRAGMENT for ONE atom: how many whole cells it is away from the home cell, `np.floor(home_positions.dot(np.linalg.inv(cell)) + 1e-9)`; the inverse is expanded as adjugate / determinant) -/
+def nearCellsAway (home_positions : Vec3) (cell : Mat3) : Int × Int × Int :=
+  ((Py.floor ((((home_positions.x * (((cell.b.y * cell.c.z) - (cell.b.z * cell.c.y)) / (((cell.a.x * ((cell.b.y * cell.c.z) - (cell.b.z * cell.c.y))) - (cell.a.y * ((cell.b.x * cell.c.z) - (cell.b.z * cell.c.x)))) + (cell.a.z * ((cell.b.x * cell.c.y) - (cell.b.y * cell.c.x)))))) + (home_positions.y * ((-((cell.b.x * cell.c.z) - (cell.b.z * cell.c.x))) / (((cell.a.x * ((cell.b.y * cell.c.z) - (cell.b.z * cell.c.y))) - (cell.a.y * ((cell.b.x * cell.c.z) - (cell.b.z * cell.c.x)))) + (cell.a.z * ((cell.b.x * cell.c.y) - (cell.b.y * cell.c.x))))))) + (home_positions.z * (((cell.b.x * cell.c.y) - (cell.b.y * cell.c.x)) / (((cell.a.x * ((cell.b.y * cell.c.z) - (cell.b.z * cell.c.y))) - (cell.a.y * ((cell.b.x * cell.c.z) - (cell.b.z * cell.c.x)))) + (cell.a.z * ((cell.b.x * cell.c.y) - (cell.b.y * cell.c.x))))))) + (Dec.toRat ⟨1, 9⟩))), (Py.floor ((((home_positions.x * ((-((cell.a.y * cell.c.z) - (cell.a.z * cell.c.y))) / (((cell.a.x * ((cell.b.y * cell.c.z) - (cell.b.z * cell.c.y))) - (cell.a.y * ((cell.b.x * cell.c.z) - (cell.b.z * cell.c.x)))) + (cell.a.z * ((cell.b.x * cell.c.y) - (cell.b.y * cell.c.x)))))) + (home_positions.y * (((cell.a.x * cell.c.z) - (cell.a.z * cell.c.x)) / (((cell.a.x * ((cell.b.y * cell.c.z) - (cell.b.z * cell.c.y))) - (cell.a.y * ((cell.b.x * cell.c.z) - (cell.b.z * cell.c.x)))) + (cell.a.z * ((cell.b.x * cell.c.y) - (cell.b.y * cell.c.x))))))) + (home_positions.z * ((-((cell.a.x * cell.c.y) - (cell.a.y * cell.c.x))) / (((cell.a.x * ((cell.b.y * cell.c.z) - (cell.b.z * cell.c.y))) - (cell.a.y * ((cell.b.x * cell.c.z) - (cell.b.z * cell.c.x)))) + (cell.a.z * ((cell.b.x * cell.c.y) - (cell.b.y * cell.c.x))))))) + (Dec.toRat ⟨1, 9⟩))), (Py.floor ((((home_positions.x * (((cell.a.y * cell.b.z) - (cell.a.z * cell.b.y)) / (((cell.a.x * ((cell.b.y * cell.c.z) - (cell.b.z * cell.c.y))) - (cell.a.y * ((cell.b.x * cell.c.z) - (cell.b.z * cell.c.x)))) + (cell.a.z * ((cell.b.x * cell.c.y) - (cell.b.y * cell.c.x)))))) + (home_positions.y * ((-((cell.a.x * cell.b.z) - (cell.a.z * cell.b.x))) / (((cell.a.x * ((cell.b.y * cell.c.z) - (cell.b.z * cell.c.y))) - (cell.a.y * ((cell.b.x * cell.c.z) - (cell.b.z * cell.c.x)))) + (cell.a.z * ((cell.b.x * cell.c.y) - (cell.b.y * cell.c.x))))))) + (home_positions.z * (((cell.a.x * cell.b.y) - (cell.a.y * cell.b.x)) / (((cell.a.x * ((cell.b.y * cell.c.z) - (cell.b.z * cell.c.y))) - (cell.a.y * ((cell.b.x * cell.c.z) - (cell.b.z * cell.c.x)))) + (cell.a.z * ((cell.b.x * cell.c.y) - (cell.b.y * cell.c.x))))))) + (Dec.toRat ⟨1, 9⟩))))
+
+/-- translated from `_get_positions_from_all_adjacent_unit_cells` in mofun/mofun.py (FRAGMENT for ONE atom: its image inside the cell, `home_positions - cells_away.dot(cell)`) -/
+def nearHomePosition (home_positions : Vec3) (cell : Mat3) : Vec3 :=
+  let cells_away_0 : Int := (Py.floor ((((home_positions.x * (((cell.b.y * cell.c.z) - (cell.b.z * cell.c.y)) / (((cell.a.x * ((cell.b.y * cell.c.z) - (cell.b.z * cell.c.y))) - (cell.a.y * ((cell.b.x * cell.c.z) - (cell.b.z * cell.c.x)))) + (cell.a.z * ((cell.b.x * cell.c.y) - (cell.b.y * cell.c.x)))))) + (home_positions.y * ((-((cell.b.x * cell.c.z) - (cell.b.z * cell.c.x))) / (((cell.a.x * ((cell.b.y * cell.c.z) - (cell.b.z * cell.c.y))) - (cell.a.y * ((cell.b.x * cell.c.z) - (cell.b.z * cell.c.x)))) + (cell.a.z * ((cell.b.x * cell.c.y) - (cell.b.y * cell.c.x))))))) + (home_positions.z * (((cell.b.x * cell.c.y) - (cell.b.y * cell.c.x)) / (((cell.a.x * ((cell.b.y * cell.c.z) - (cell.b.z * cell.c.y))) - (cell.a.y * ((cell.b.x * cell.c.z) - (cell.b.z * cell.c.x)))) + (cell.a.z * ((cell.b.x * cell.c.y) - (cell.b.y * cell.c.x))))))) + (Dec.toRat ⟨1, 9⟩)))
+  let cells_away_1 : Int := (Py.floor ((((home_positions.x * ((-((cell.a.y * cell.c.z) - (cell.a.z * cell.c.y))) / (((cell.a.x * ((cell.b.y * cell.c.z) - (cell.b.z * cell.c.y))) - (cell.a.y * ((cell.b.x * cell.c.z) - (cell.b.z * cell.c.x)))) + (cell.a.z * ((cell.b.x * cell.c.y) - (cell.b.y * cell.c.x)))))) + (home_positions.y * (((cell.a.x * cell.c.z) - (cell.a.z * cell.c.x)) / (((cell.a.x * ((cell.b.y * cell.c.z) - (cell.b.z * cell.c.y))) - (cell.a.y * ((cell.b.x * cell.c.z) - (cell.b.z * cell.c.x)))) + (cell.a.z * ((cell.b.x * cell.c.y) - (cell.b.y * cell.c.x))))))) + (home_positions.z * ((-((cell.a.x * cell.c.y) - (cell.a.y * cell.c.x))) / (((cell.a.x * ((cell.b.y * cell.c.z) - (cell.b.z * cell.c.y))) - (cell.a.y * ((cell.b.x * cell.c.z) - (cell.b.z * cell.c.x)))) + (cell.a.z * ((cell.b.x * cell.c.y) - (cell.b.y * cell.c.x))))))) + (Dec.toRat ⟨1, 9⟩)))
+  let cells_away_2 : Int := (Py.floor ((((home_positions.x * (((cell.a.y * cell.b.z) - (cell.a.z * cell.b.y)) / (((cell.a.x * ((cell.b.y * cell.c.z) - (cell.b.z * cell.c.y))) - (cell.a.y * ((cell.b.x * cell.c.z) - (cell.b.z * cell.c.x)))) + (cell.a.z * ((cell.b.x * cell.c.y) - (cell.b.y * cell.c.x)))))) + (home_positions.y * ((-((cell.a.x * cell.b.z) - (cell.a.z * cell.b.x))) / (((cell.a.x * ((cell.b.y * cell.c.z) - (cell.b.z * cell.c.y))) - (cell.a.y * ((cell.b.x * cell.c.z) - (cell.b.z * cell.c.x)))) + (cell.a.z * ((cell.b.x * cell.c.y) - (cell.b.y * cell.c.x))))))) + (home_positions.z * (((cell.a.x * cell.b.y) - (cell.a.y * cell.b.x)) / (((cell.a.x * ((cell.b.y * cell.c.z) - (cell.b.z * cell.c.y))) - (cell.a.y * ((cell.b.x * cell.c.z) - (cell.b.z * cell.c.x)))) + (cell.a.z * ((cell.b.x * cell.c.y) - (cell.b.y * cell.c.x))))))) + (Dec.toRat ⟨1, 9⟩)))
+  let home_positions_0 : Rat := (home_positions.x - (((((cells_away_0 : Int) : Rat) * cell.a.x) + (((cells_away_1 : Int) : Rat) * cell.b.x)) + (((cells_away_2 : Int) : Rat) * cell.c.x)))
+  let home_positions_1 : Rat := (home_positions.y - (((((cells_away_0 : Int) : Rat) * cell.a.y) + (((cells_away_1 : Int) : Rat) * cell.b.y)) + (((cells_away_2 : Int) : Rat) * cell.c.y)))
+  let home_positions_2 : Rat := (home_positions.z - (((((cells_away_0 : Int) : Rat) * cell.a.z) + (((cells_away_1 : Int) : Rat) * cell.b.z)) + (((cells_away_2 : Int) : Rat) * cell.c.z)))
+  (⟨home_positions_0, home_positions_1, home_positions_2⟩ : Vec3)
 
 /-- translated from `load_p1_cif` in mofun/atoms.py class Atoms (FRAGMENT: the name of the function that reads one entry of the charge column) -/
 def cifChargeReader : String :=
